@@ -17,7 +17,9 @@ EVIDENCE = {
             "offset, prepare(size) below/at/above the remaining length, then get/skip/len or iteration; checked operation by "
             "operation against a bytearray; distinct = distinct history (hash of operations and results); non-trivial = at "
             "least one representation migration happened while the read position was non-zero, or (read-only buffer) the "
-            "prepared size differed from the file length",
+            "prepared size differed from the file length; the first run indices of every batch are the COMPLETE enumeration of all "
+            "histories of length <= 3 (quick) / <= 4 (thorough) over the size-class alphabet for each overflow threshold "
+            "(probe enumerated_short_histories counts them), the rest are seeded random histories",
     "real": ["waitress.buffers (unmodified), real BytesIO and temporary files"],
     "stub": ["nothing: the buffer classes are driven directly; there is no scheduler, clock or socket in this property"],
     "assumptions": [
@@ -41,6 +43,49 @@ def size_classes(ov):
         if 0 <= x <= 40000:
             s.add(x)
     return sorted(s)
+
+
+ENUM_LEN = {"quick": 3, "thorough": 4}
+_enum_cache = {}
+
+
+def enum_alphabet(ov):
+    L = wb.STRBUF_LIMIT
+    sizes = sorted({0, 1, L - 1, L, L + 1} | {x for x in (ov - 1, ov, ov + 1) if 0 <= x <= 30000})
+    ops = [["append", z] for z in sizes]
+    ops += [["peek", 1], ["peek", L], ["peek", -1], ["take", 1], ["take", L + 1], ["skip", 0, 1], ["skip", 1, 1]]
+    return ops
+
+
+def enum_total(tier):
+    n = ENUM_LEN.get(tier, 3)
+    tot = 0
+    for ov in OVERFLOWS:
+        a = len(enum_alphabet(ov))
+        tot += sum(a ** k for k in range(1, n + 1))
+    return tot
+
+
+def enum_scenario(tier, index):
+    """the index-th history of the complete enumeration (all histories of length <= ENUM_LEN over the
+    size-class alphabet, for every overflow threshold); None when index is past the end"""
+    n = ENUM_LEN.get(tier, 3)
+    for ov in OVERFLOWS:
+        alpha = enum_alphabet(ov)
+        a = len(alpha)
+        for k in range(1, n + 1):
+            cnt = a ** k
+            if index < cnt:
+                ops = []
+                x = index
+                for _ in range(k):
+                    ops.append(list(alpha[x % a]))
+                    x //= a
+                # 'skip' arguments: [skip, selector, allow_prune]; selector 0 -> 1 byte, 1 -> everything
+                ops = [["skip", 0 if o[1] == 0 else 3, o[2]] if o[0] == "skip" else o for o in ops]
+                return {"kind": "overflowable", "overflow": ov, "ops": ops + [["len"], ["close"]], "enumerated": True}
+            index -= cnt
+    return None
 
 
 def gen(W):
@@ -110,7 +155,12 @@ def payload(counter, n):
 
 
 def run_one(tapes, tier, scenario=None):
-    sc = scenario if scenario is not None else gen(tapes.W)
+    sc = scenario
+    if sc is None and tapes.W.replay is None:
+        # the first enum_total(tier) run indices are the complete enumeration of short histories
+        sc = enum_scenario(tier, tapes.run_index)
+    if sc is None:
+        sc = gen(tapes.W)
     res = RunResult()
     res.scenario = sc
     h = hashlib.sha256()
@@ -164,7 +214,7 @@ def run_one(tapes, tier, scenario=None):
                     if not model:
                         continue
                     n = 1 + op[1] % len(model)
-                    if op[1] % 3 == 0:
+                    if op[1] % 3 == 0 and op[1] > 0:
                         n = len(model)
                     buf.skip(n, bool(op[2]))
                     trace.append(("skip", n, op[2]))
@@ -209,8 +259,11 @@ def run_one(tapes, tier, scenario=None):
             buf.close()
         except Exception:
             pass
-        res.sample = {"kind": "OverflowableBuffer", "overflow": ov, "ops": trace[:40], "migrations": sorted(probes)}
+        res.sample = {"kind": "OverflowableBuffer", "overflow": ov, "ops": trace[:40], "migrations": sorted(probes),
+                      "enumerated": bool(sc.get("enumerated"))}
         cell = "ov=%d" % ov
+        if sc.get("enumerated"):
+            probes["enumerated_short_histories"] = 1
     else:
         data = payload([0], sc["flen"])
         off = min(sc["offset"], len(data))
